@@ -457,8 +457,10 @@ impl Document {
                     if let TokenKind::Newline(n) = child_tok.kind {
                         *start_count += n;
                         start_tok.span.end = child_tok.span.end;
+                        // The loop advances the cursor itself: advancing it here as well skipped
+                        // every other newline of a longer run, which was then left behind inside
+                        // the span of the merged token.
                         remove_these.push_back(cursor);
-                        cursor += 1;
                     } else {
                         break;
                     };
